@@ -298,3 +298,72 @@ func heldAtIP(fn *ssa.Function, instr ssa.Instruction, mutexSuffix string, lockN
 	}
 	return true
 }
+
+// derivesOnlyFromField: every non-nil leaf of v (looking through phis, extracts, map lookups, loads, and the returns of
+// same-package helpers) is a read of the named struct field.
+func derivesOnlyFromField(v ssa.Value, field string, depth int, seen map[ssa.Value]bool) bool {
+	if depth > 10 || v == nil {
+		return false
+	}
+	if seen == nil {
+		seen = map[ssa.Value]bool{}
+	}
+	if seen[v] {
+		return true
+	}
+	seen[v] = true
+	switch x := v.(type) {
+	case *ssa.Const:
+		return x.IsNil()
+	case *ssa.Phi:
+		for _, e := range x.Edges {
+			if !derivesOnlyFromField(e, field, depth+1, seen) {
+				return false
+			}
+		}
+		return len(x.Edges) > 0
+	case *ssa.Extract:
+		return derivesOnlyFromField(x.Tuple, field, depth+1, seen)
+	case *ssa.Lookup:
+		return derivesOnlyFromField(x.X, field, depth+1, seen)
+	case *ssa.Index:
+		return derivesOnlyFromField(x.X, field, depth+1, seen)
+	case *ssa.IndexAddr:
+		return derivesOnlyFromField(x.X, field, depth+1, seen)
+	case *ssa.UnOp:
+		if fa, ok := x.X.(*ssa.FieldAddr); ok && fieldName(fa.X.Type(), fa.Field) == field {
+			return true
+		}
+		if al, ok := x.X.(*ssa.Alloc); ok {
+			n := 0
+			for _, r := range *al.Referrers() {
+				if st, ok := r.(*ssa.Store); ok && st.Addr == ssa.Value(al) {
+					n++
+					if !derivesOnlyFromField(st.Val, field, depth+1, seen) {
+						return false
+					}
+				}
+			}
+			return n > 0
+		}
+		return derivesOnlyFromField(x.X, field, depth+1, seen)
+	case *ssa.Field:
+		return fieldName(x.X.Type(), x.Field) == field
+	case *ssa.Call:
+		h := x.Call.StaticCallee()
+		if h == nil || h.Pkg == nil || h.Pkg != x.Parent().Pkg || len(h.Blocks) == 0 {
+			return false
+		}
+		n := 0
+		for _, b := range h.Blocks {
+			if r, ok := b.Instrs[len(b.Instrs)-1].(*ssa.Return); ok && len(r.Results) > 0 {
+				n++
+				if !derivesOnlyFromField(returnedValue(r, 0), field, depth+1, seen) {
+					return false
+				}
+			}
+		}
+		return n > 0
+	}
+	return false
+}
